@@ -26,7 +26,7 @@ func init() {
 		NonTrivial: func(c *Case) bool {
 			return c.Tags["updates"] > 0 && c.Tags["unset_inputs"] > 0 && (c.Tags["rejected"] > 0 || c.Tags["probes"] > 0)
 		},
-		ShardSize: 60,
+		ShardSize: 40,
 	}
 }
 
@@ -363,7 +363,7 @@ func (s *c24Session) redial() {
 	s.cl, _ = dialRPC(s.addr, 2*time.Second, true)
 }
 
-// probe: LOOKUP f.txt in the root, READ 5 bytes, WRITE 4 bytes (FILE_SYNC)
+// probe: LOOKUP f.txt in the root, READ 5 bytes, WRITE 1 byte (FILE_SYNC; fits every TransferSize >= 1)
 func (s *c24Session) probe() []uint64 {
 	if s.cl == nil {
 		s.redial()
@@ -375,9 +375,9 @@ func (s *c24Session) probe() []uint64 {
 	lk, _ := s.cl.nfsStatus(3, append(fhArg(s.rootFH), xdrOpaque([]byte("f.txt"))...))
 	rd, _ := s.cl.nfsStatus(6, append(fhArg(s.fileFH), append(be64(0), be32(5)...)...))
 	wargs := append(fhArg(s.fileFH), be64(0)...)
-	wargs = append(wargs, be32(4)...)
+	wargs = append(wargs, be32(1)...)
 	wargs = append(wargs, be32(2)...)
-	wargs = append(wargs, xdrOpaque([]byte("HELL"))...)
+	wargs = append(wargs, xdrOpaque([]byte("H"))...)
 	wr, _ := s.cl.nfsStatus(7, wargs)
 	out = append(out, lk, rd, wr)
 	for _, x := range out {
